@@ -16,6 +16,7 @@ TYPES = {
     # integer, a datetime with a time of day is not a date)
     'integer': dict(opts={'type': 'integer'}, valid=['1', '-20', 7], invalid=['x', '1.5', True]),
     'number': dict(opts={'type': 'number'}, valid=['1.5', '-2', 2.5, 3], invalid=['abc', '1,5', False]),
+    'number-bare': dict(opts={'type': 'number', 'bareNumber': False}, valid=['$10.5', '20%', '4 pcs', 3], invalid=['abc', 'x']),
     'date-default': dict(opts={'type': 'date'}, valid=['2020-01-02', datetime.date(2000, 1, 1), datetime.datetime(2001, 2, 3, 0, 0)],
                          invalid=['02/01/2020', datetime.datetime(2000, 1, 1, 5, 0)]),
     'boolean': dict(opts={'type': 'boolean'}, valid=['true', 'False', True], invalid=['yes', '2']),
@@ -303,6 +304,8 @@ def cases(tier):
             if len(pat) <= 2:
                 for pol in POLICIES:
                     out.append({'via': 'validate', 'type': tname, 'policy': pol, 'pattern': pat})
+        if tier == 'quick' and tname in ('date-default', 'number-bare', 'year', 'array'):
+            continue              # quick: the option axes on the five main types
         # the other axes around the base configuration, on <=2-row tables
         for pat in [p for p in pats if len(p) <= 2]:
             for pol in ('raise', 'drop', 'clear', 'custom5-keep'):
